@@ -2033,18 +2033,22 @@ sexp sexp_string_utf8_index_ref (sexp ctx, sexp self, sexp_sint_t n, sexp str, s
 }
 
 sexp sexp_read_utf8_char (sexp ctx, sexp port, int i) {
+  int c, n, lead = i;
   if (i >= 0x80) {
     if ((i < 0xC0) || (i > 0xF7)) {
       return sexp_user_exception(ctx, NULL, "read-char: invalid utf8 byte", sexp_make_fixnum(i));
     } else if (i < 0xE0) {
-      i = ((i&0x3F)<<6) + (sexp_read_char(ctx, port)&0x3F);
+      i &= 0x3F; n = 1;
     } else if (i < 0xF0) {
-      i = ((i&0x1F)<<12) + ((sexp_read_char(ctx, port)&0x3F)<<6);
-      i += sexp_read_char(ctx, port)&0x3F;
+      i &= 0x1F; n = 2;
     } else {
-      i = ((i&0x0F)<<18) + ((sexp_read_char(ctx, port)&0x3F)<<12);
-      i += (sexp_read_char(ctx, port)&0x3F)<<6;
-      i += sexp_read_char(ctx, port)&0x3F;
+      i &= 0x0F; n = 3;
+    }
+    for ( ; n > 0; n--) {
+      c = sexp_read_char(ctx, port);
+      if (c == EOF)
+        return sexp_user_exception(ctx, NULL, "read-char: truncated utf8 sequence", sexp_make_fixnum(lead));
+      i = (i<<6) + (c&0x3F);
     }
   }
   return sexp_make_character(i);
